@@ -147,6 +147,8 @@ class QueueView:
         self.n_c, self.n_p, self.n_r, self.lag = g("n_committed", CW), g("n_pending", CW), g("n_read", CW), g("lag", 1)
         self.k = c.rigid("k", CW)
         self.wit = g("wit", width)
+        self.width = width
+        self.wit_prev = None
         self.unread = self.n_c - self.n_r
         self.held = zx(self.lag, CW) + self.unread + self.n_p
         self.full = self.held == depth
@@ -163,8 +165,16 @@ class QueueView:
         c.set_next(self.n_r, z3.If(pop, self.n_r + 1, self.n_r))
         c.set_next(self.lag, bv1(pop))
         self.cap = z3.And(store, self.n_c + self.n_p == self.k)
+        self.data = data
         c.set_next(self.wit, z3.If(self.cap, data, self.wit))
         self.pending_sound = pending_sound
+
+    def track_previous_entry(self, init):
+        """second witness: the entry with index k-1 (for properties relating neighbouring entries, e.g. packet framing)"""
+        c = self.c
+        self.wit_prev = c.ghost("wit_prev", self.width, init=init)
+        self.cap_prev = z3.And(self.store, self.n_c + self.n_p == self.k - 1)
+        c.set_next(self.wit_prev, z3.If(self.cap_prev, self.data, self.wit_prev))
 
     def invariants(self):
         c, ts, f, D = self.c, self.ts, self.fifo, self.D
@@ -190,3 +200,10 @@ class QueueView:
         a = z3.If(z3.UGE(a, N), a - N, a)
         inv("fifo_witness_entry_in_place", z3.Implies(live, z3.Select(mem, z3.Extract(aw - 1, 0, a)) == self.wit))
         self.live = live
+        if self.wit_prev is not None:
+            off2 = self.k - 1 - self.n_r
+            live2 = z3.ULT(off2, self.unread + z3.If(self.pending_sound, self.n_p, bvc(0, CW)))
+            a2 = z(cr) + off2
+            a2 = z3.If(z3.UGE(a2, N), a2 - N, a2)
+            inv("fifo_previous_witness_entry_in_place", z3.Implies(live2, z3.Select(mem, z3.Extract(aw - 1, 0, a2)) == self.wit_prev))
+            self.live_prev = live2
